@@ -272,6 +272,18 @@ def check_case(case):
     desc = "%s(version=%r, allow_custom=%s) id=%s doc=%s" % (entry, v, allow_custom, case["id_kind"], core.short(doc, 300))
     if isinstance(gexc, AssertionError):
         return [("harness-observation:" + str(gexc), desc)]
+    if v is not None and case["id_kind"] != "valid" and gexc is None and hasattr(got, "serialize") and \
+            not (vmod(got) == "2.0" and got.get("type") in M.get("2.0").observables):
+        # (a library object: content of a type unknown to the named version comes back as the dictionary it was, and a 2.0 observable has
+        # no identifier property -- there "id" is a custom property)
+        # independent of the library (and of whatever this process validated before): an identifier that is not one under the NAMED
+        # version -- nil UUID, non-RFC-4122 variant; a UUIDv1 under 2.0 -- was let through
+        from oracle import validator as VAL
+        subject_id = (wrapper or doc).get("id")
+        why = VAL.id_problem(subject_id, v)
+        if why:
+            return [("accepted-what-direct-parse-refuses:relaxed-identifier:%s" % entry.split("-")[0],
+                     "%s accepted an identifier that is not a STIX %s identifier (%s): %s" % (entry, v, why, desc))]
     if rexc is not None:
         if gexc is None and got is not None:
             relax = "relaxed-identifier" if case["id_kind"] != "valid" else "other"
